@@ -314,6 +314,7 @@ def run(rep, facts, tier):
                 rep.check(ok, 'R17.3', '%s/call#%d/decode-success' % (b.key, n_calls), 'only on DecodeOutcome::Success of decode_submessage',
                           'a decoded submessage is delivered although decode_submessage did not return Success', b.where(bb))
     rep.floor('R17.3', n_calls, 7, 'hand-overs to handle_writer_submessage / handle_reader_submessage')
+    rule_17_8(rep, fx, [hs, hss])
     # handle_secure_submessage only in SecureSubmessage x SecurePostfix
     og = Origins(hs, summaries=True)
     P = Pos(hs)
@@ -520,3 +521,28 @@ def rule_17_7(rep, fx, mr):
                           'on this route' % (' -> '.join(x.rsplit('::', 1)[-1] for x in route), FLAG), info[k][0].where(ungated[k][0]))
         else:
             rep.ok('R17.7', '%s/gated' % root, 'every route to a delivery passes a dominating flag test (%d ungated inner functions, each called only behind the test)' % len(ungated), info[k][0].where())
+
+
+def rule_17_8(rep, fx, bodies):
+    """The other half of the property: traffic that needs no protection, or that carried it, keeps flowing."""
+    rep.rule('R17.8', 'keeps flowing: in handle_submessage / handle_secure_submessage, once submessage_not_protected(dest) or confirm_local_endpoint_guid(..) has answered true for an '
+                      'entity, every path to the end of that step hands the submessage to handle_writer_submessage / handle_reader_submessage')
+    n = 0
+    for b in bodies:
+        og = Origins(b, summaries=True)
+        P = Pos(b)
+        edges = list(switch_edges(b, fx, og))
+        handlers = [(bb, 'term') for bb, t in b.calls() if call_matches(t, 'MessageReceiver::handle_writer_submessage', 'MessageReceiver::handle_reader_submessage')]
+        nxt = [(nb, 'term') for nb, t in b.calls() if callee_res(t).endswith('::next')]
+        ends = [(r, 'term') for r in b.return_blocks()] + nxt
+        acc = [(s_, t_, cond[1].rsplit('::', 1)[-1]) for s_, t_, cond, lab in edges if lab is True and cond[0] == 'call' and
+               cond[1].endswith(('::submessage_not_protected', '::confirm_local_endpoint_guid'))]
+        # the reader that a find(..) over the local readers selected (its closure confirms the crypto handle / tests the protection of that reader: R17.3)
+        acc += [(s_, t_, 'find') for s_, t_, cond, lab in edges if lab == 'Some' and cond[0] == 'discr' and cond[1][0] == 'call' and cond[1][1].endswith('::find')]
+        for s_, t_, what in acc:
+            n += 1
+            leak = [e for e in ends if P.can_reach((t_, 0), e, avoid_pos=handlers)]
+            rep.check(not leak, 'R17.8', '%s/%s#%d' % (b.key.rsplit('::', 1)[-1], what, n), 'true => the submessage is handed on, on every path',
+                      '%s: after %s answered true the submessage can be dropped without being handed to handle_writer/reader_submessage: traffic that needs no protection (or was '
+                      'properly protected) stops flowing' % (b.key.rsplit('::', 1)[-1], what), b.where(s_))
+    rep.floor('R17.8', n, 3, 'accepting answers in handle_submessage / handle_secure_submessage')
